@@ -419,6 +419,9 @@ func init() {
 				r.Violate(Violation{Kind: "e2e", Suite: "hooks", Input: c, Observed: obs, Expected: v})
 			}
 		}
+		// compound finishers, associations, contexts, transaction identity (c13_world.go, c13_compound.go)
+		r.Exhaustive = false
+		c13xSuite(r, rng, tier)
 	})
 	replayers["C13/hooks"] = func(r *Result, input json.RawMessage) {
 		var c c13Case
